@@ -155,7 +155,9 @@ class GateSock(object):
 
     def recv(self, n):
         g = getattr(_tls, 'gate', None)
-        if g is not None and pending_bytes(self._sock) == 0:
+        if pending_bytes(self._sock) == 0:
+            # the pair is blocking: with no byte in it this recv() never returns - in an application thread behind a
+            # gate, and just as well in the reactor's own round (which the harness runs itself)
             raise WouldHang('recv on the wake-up socket with no byte in it')
         d = self._sock.recv(n)
         if g is not None:
@@ -339,6 +341,8 @@ class Impl(object):
         self.gen = 0
         self.dead = False
         self.crash = None
+        self.hung = False
+        self.crash_in_write_path = False
         self.socks = {}
         self.threads = {}       # t -> AppThread
         self.handed = []
@@ -400,9 +404,20 @@ class Impl(object):
                     self.out.append('block')
                 except HarnessTimeout:
                     raise
+                except WouldHang:           # the reactor thread would sit in recv() on its own wake-up socket for ever
+                    self.dead = True
+                    self.hung = True
+                    self.crash = 'WouldHang'
+                    self.out.append('crash')
                 except Exception as e:      # the reactor thread would end here
                     self.dead = True
                     self.crash = repr(e)
+                    import traceback as _tb
+                    fr_ = _tb.extract_tb(e.__traceback__)
+                    # WHERE it ended: in the write path (servicing the outbox / the wake-up queue) or elsewhere (an
+                    # OP_ERROR or a protocol error on the read path and a failing select() end the thread by design)
+                    self.crash_in_write_path = any(f.name in ('_outbox_read_ready', '_socket_write_ready') or
+                                                   f.filename.replace(os.sep, '/').endswith('hpfeeds/blocking/queue.py') for f in fr_)
                     self.out.append('crash')
                 # classify socket closes: the reactor forgetting the socket is a loss, otherwise transport.close()
                 if r.sock is None:
@@ -676,6 +691,10 @@ def monitors(res, cfg, events, lines, impl, script):
             res.violation('C12', 'handed-sequence', 'blocking thread session: read() returned %r ..., the PUBLISH frames received are %r ...' % (impl.handed[:3], expected[:3]), script)
         elif len(impl.handed) < len(expected) and not impl.dead:
             res.violation('C12', 'message-lost', 'blocking thread session: %d PUBLISH frame(s) were received but only %d handed to read() with the queue empty' % (len(expected), len(impl.handed)), script)
+    if getattr(impl, 'hung', False):
+        res.violation('C20', 'reactor-blocks', 'blocking reactor: servicing its select()-readable outbox it called recv() on the wake-up socket with no byte in it - the reactor thread blocks for ever and the frames queued behind never reach the socket%s' % tag, script)
+    if getattr(impl, 'crash_in_write_path', False):
+        res.violation('C20', 'write-path-crashed', 'blocking reactor: an exception (%s) escaped while it was servicing its outbox / writing: the reactor thread ends and whatever is queued never reaches the socket%s' % (str(impl.crash)[:120], tag), script)
     if impl.apperrs:
         res.violation('C20', 'app-call-raised', 'blocking thread session: an application call raised %s%s' % (impl.apperrs[0][:200], tag), script)
     # C20, second sentence, on the real queues: select()-readable iff non-empty (no put half-way)
